@@ -201,25 +201,38 @@ def _violations(m):
     return n
 
 
-LAYOUTS = ['', '\n', '\n\n', '  ', '\n   ', '\t', '\n\n\n ', ' \n', '    \n  ']
-MULTI_HOMES = ['function', 'bridge', 'operation']       # the three homes with the same parameters
+LAYOUTS = ['', '\n', '\n\n', '  ', '\n   ', '\t', '\n\n\n ', ' \n', '    \n  ', '\r\n', '/* c */ ', '// c\n']
+PARAM_HOMES = ['function', 'bridge', 'operation', 'cop']                    # bodies reading parameters (no self)
+ALL_HOMES = ['function', 'bridge', 'operation', 'cop', 'derived', 'state']  # bodies without parameters and self
+POISON = ['x = y_unknown;', 'select any q from instances of NOPE;\nq.a = 1;', 'z = 1 +;',
+          'create object instance d of DOG;\nd.NoSuchAttribute = 1;', 'generate NOEVT:nothing() to DOG class;',
+          'x = ::no_such_function();', 'select any d from instances of DOG;\nselect one p related by d->PER[R99];']
 
 
 def generate(ctx):
-    # one body in several homes of ONE model, with different leading blank lines / first-line indentation:
-    # every action must carry the positions of its OWN text
     yield {'schema': True, 'home': 'function', 'prog': [], 'style': 0}
+    # ONE body in several homes of ONE model (every kind of action home), with different leading blank lines / first-line
+    # indentation / comments, optionally after an action that FAILED to prebuild in the same model and process:
+    # every action must carry the positions, variables and types of its OWN text and home
     rng = ctx.rng.fork('multi')
-    for i in range(ctx.pick(60, 1500)):
+    for i in range(ctx.pick(70, 1500)):
         r = rng.fork(i)
-        g = G.ProgramGen(r, 'function', r.randint(1, 5))
-        lay = r.sample(LAYOUTS, 3)
-        if r.random() < 0.3:
-            lay[r.randint(1, 2)] = lay[0]                 # also the fully identical text twice
+        common = r.random() < 0.5
+        homes = list(ALL_HOMES if common else PARAM_HOMES)
+        poison = r.choice(POISON) if r.random() < 0.5 else None
+        poison_home = 'derived' if common else 'cop'      # this home takes the failing body
+        if poison is not None:
+            homes.remove(poison_home)
+            if r.random() < 0.7:
+                # the failing action is the SAME body (same variable names) followed by a statement that is rejected
+                poison = ['body', poison]
+        g = G.ProgramGen(r, 'common' if common else 'function', r.randint(1, 5), None, r.random() < 0.3)
+        lay = [r.choice(LAYOUTS) for _ in homes]
         yield {'multi': True, 'home': 'function', 'prog': g.program(), 'style': r.randint(0, 2 ** 30),
-               'vary': r.random() < 0.5, 'layouts': lay, 'trail': [r.choice(['', ' ', '\n', '\n\n']) for _ in range(3)],
-               'via_model': r.random() < 0.6}
-    for c in P5.generate(ctx, n_quick=1500):
+               'vary': r.random() < 0.5, 'homes': homes, 'layouts': lay, 'poison': poison, 'poison_home': poison_home,
+               'trail': [r.choice(['', ' ', '\n', '\n\n']) for _ in homes],
+               'via_model': poison is None and r.random() < 0.6}
+    for c in P5.generate(ctx, n_quick=1500, multi=False):
         yield c
 
 
@@ -249,6 +262,8 @@ class Typer(object):
         self.scopes = [dict()]
         self.sel = []               # classes `selected` denotes (where clauses)
         self.values = {}            # (line, col, endcol) -> (rule, type)
+        self.value_keys = []        # the key of every expression (an expression spanning several lines may share its
+        self.ambiguous = set()      #  key with a sub-expression: a V_VAL carries no end line; such keys are not typed)
         self.decls = []             # (name, declaring statement start (line, col))
         self.stmts = []             # (line, col, endcol) of every statement-like node
         self.lists = []             # per StatementListNode: [(line, col)] of its children, in source order
@@ -295,7 +310,11 @@ class Typer(object):
         head = str(b[0])
         rule, ty = self._expr(head, b)
         if pos is not None:
-            self.values[(pos[1], pos[2], pos[5])] = (rule, ty)
+            key = (pos[1], pos[2], pos[5])
+            if key in self.values:
+                self.ambiguous.add(key)
+            self.values[key] = (rule, ty)
+            self.value_keys.append(key)
         return ty
 
     def _expr(self, head, b):
@@ -514,33 +533,53 @@ def _subtype_names(m, inst, rel_id):
 
 
 def run_multi(case):
-    """one body, three homes of one model, different leading layout: statements of each action carry the line
-    and columns of that action's own text (expected positions: the action's own text parsed on its own)"""
+    """one body in several homes of one model, different leading layout, optionally after an action that failed to
+    prebuild: each action carries the positions of its own text, declares its own variables, types parameter and
+    attribute reads with its own home's declarations"""
     rig = _rig
     one, many = rig.xtuml.navigate_one, rig.xtuml.navigate_many
     body = text_of(case)
     m, homes = rig.fresh()
+    hns = case['homes']
     texts = {}
-    for hn, lay, trail in zip(MULTI_HOMES, case['layouts'], case['trail']):
+    for hn, lay, trail in zip(hns, case['layouts'], case['trail']):
         texts[hn] = lay + body + trail
         homes[hn].Action_Semantics_internal = texts[hn]
         homes[hn].Suc_Pars = 1
+    poisoned = False
+    ptext = None
+    if case.get('poison') is not None:
+        ptext = case['poison'] if isinstance(case['poison'], str) else body + '\n' + case['poison'][1]
+        ph = homes[case.get('poison_home', 'derived')]
+        ph.Action_Semantics_internal = ptext
+        try:
+            rig.prebuild.prebuild_action(ph)
+        except Exception:
+            poisoned = True             # the rejected action; the model and the process go on being used
     try:
         if case.get('via_model'):
             rig.prebuild.prebuild_model(m)
         else:
-            for hn in MULTI_HOMES:
+            for hn in hns:
                 rig.prebuild.prebuild_action(homes[hn])
     except Exception as e:
         if type(e) is Exception and str(e).startswith(('Unknown transient', 'Unknown identifier')):
             return {'obs': [Sym('out-of-domain'), str(e)], 'd_fail': [], 'nontrivial': False, 'stats': {'out_of_domain': 1}}
         raise
     fails = []
+
+    def fail(sig, what):
+        if len(fails) < 4:
+            fails.append({'sig': sig, 'what': what + '\n--- texts by home: %r%s' % (
+                texts, '\n--- prebuilt before them in the same model, rejected: %r' % ptext if poisoned else '')})
     acts = {'function': lambda h: one(h).ACT_FNB[695].ACT_ACT[698](),
             'bridge': lambda h: one(h).ACT_BRB[697].ACT_ACT[698](),
-            'operation': lambda h: one(h).ACT_OPB[696].ACT_ACT[698]()}
+            'operation': lambda h: one(h).ACT_OPB[696].ACT_ACT[698](),
+            'cop': lambda h: one(h).ACT_OPB[696].ACT_ACT[698](),
+            'derived': lambda h: one(h).ACT_DAB[693].ACT_ACT[698](),
+            'state': lambda h: one(h).ACT_SAB[691].ACT_ACT[698]()}
     nst = 0
-    for hn in MULTI_HOMES:
+    for hn in hns:
         ty = Typer(hn)
         enc = oal_sexp.encode(rig.parse(texts[hn]), positions=True)
         _, b = _unwrap(enc)
@@ -548,28 +587,46 @@ def run_multi(case):
         _, sl = _unwrap(blk[1])
         ty.stmt_list(sl)
         act_act = acts[hn](homes[hn])
+        if act_act is None:
+            fail('no-action', 'the %s home has no ACT_ACT after prebuilding' % hn)
+            continue
         got = sorted((s.LineNumber, s.StartPosition, getattr(s, 'EndPosition', None))
-                     for s in many(act_act).ACT_BLK[601].ACT_SMT[602]()) if act_act is not None else None
+                     for s in many(act_act).ACT_BLK[601].ACT_SMT[602]())
         want = sorted(ty.stmts)
         nst += len(want)
-        if got != want and len(fails) < 3:
-            fails.append({'sig': 'statement-position',
-                          'what': 'the %s action holds %r (the same body as the other actions of the model up to leading / '
-                                  'trailing white space); its ACT_SMT (line, start, end) = %s, the statements of its own '
-                                  'text are at %s\n--- all three texts: %r' % (hn, texts[hn], got, want, texts)})
-        vgot = sorted((v.LineNumber, v.StartPosition, v.EndPosition)
-                      for v in many(act_act).ACT_BLK[601].V_VAL[826]()) if act_act is not None else None
-        vwant = sorted(ty.values)
-        if vgot != vwant and got == want and len(fails) < 3:
-            fails.append({'sig': 'value-position',
-                          'what': 'the V_VAL instances of the %s action %r are at %s, the expressions of its own text at %s'
-                                  % (hn, texts[hn], vgot, vwant)})
-    added = _violations(m) - _before
-    if added:
-        fails.append({'sig': 'integrity-added', 'what': 'prebuilding three actions %r added %d violation(s)' % (texts, added)})
+        if got != want:
+            fail('statement-position', 'the %s action holds the same body as the other actions of the model up to leading / '
+                 'trailing layout; its ACT_SMT (line, start, end) = %s, the statements of its own text are at %s'
+                 % (hn, got, want))
+            continue
+        vals = list(many(act_act).ACT_BLK[601].V_VAL[826]())
+        vgot = sorted((v.LineNumber, v.StartPosition, v.EndPosition) for v in vals)
+        if vgot != sorted(ty.value_keys):
+            fail('value-position', 'the V_VAL instances of the %s action are at %s, the expressions of its own text at %s'
+                 % (hn, vgot, sorted(ty.value_keys)))
+            continue
+        for v in vals:
+            if (v.LineNumber, v.StartPosition, v.EndPosition) in ty.ambiguous:
+                continue
+            exp = ty.values[(v.LineNumber, v.StartPosition, v.EndPosition)]
+            s_dt = one(v).S_DT[820]()
+            tname = s_dt.Name if s_dt is not None else None
+            if exp[0] in JUDGED and exp[1] is not None and tname != exp[1]:
+                fail('value-type:' + exp[0], 'in the %s action the V_VAL of the %s expression at line %s columns %s-%s is '
+                     'typed %s; with the declarations of this home OAL types it %s'
+                     % (hn, exp[0], v.LineNumber, v.StartPosition, v.EndPosition, tname, exp[1]))
+        nvar = sorted(v.Name for v in many(act_act).ACT_BLK[601].V_VAR[823]() if v.Name != 'self')
+        if nvar != sorted(n for n, _ in ty.decls):
+            fail('variable-count', 'the %s action declares the variables %s; its text declares %s'
+                 % (hn, nvar, sorted(n for n, _ in ty.decls)))
+    if not poisoned:
+        added = _violations(m) - _before
+        if added:
+            fail('integrity-added', 'prebuilding the actions added %d violation(s)' % added)
     return {'obs': Sym('multi'), 'd_fail': fails, 'nontrivial': nst >= 3,
-            'key': 'multi:' + hashlib.sha1(repr(sorted(texts.items())).encode()).hexdigest()[:16],
-            'stats': {'multi_action_models': 1, 'statements': nst}}
+            'key': 'multi:' + hashlib.sha1(repr((sorted(texts.items()), case.get('poison'))).encode()).hexdigest()[:16],
+            'stats': {'multi_action_models': 1, 'multi_actions': len(hns), 'rejected_action_first': int(poisoned),
+                      'statements': nst}}
 
 
 def run_impl(case):
@@ -625,11 +682,12 @@ def run_impl(case):
         exp = ty.values.get(key)
         if exp is None:
             fail('value-position', 'a V_VAL carries line %s columns %s-%s; no expression of the source is there' % key)
-        elif exp[0] in JUDGED and exp[1] is not None and tname != exp[1]:
+        elif key not in ty.ambiguous and exp[0] in JUDGED and exp[1] is not None and tname != exp[1]:
             fail('value-type:' + exp[0], 'the V_VAL of the %s expression at line %s columns %s-%s is typed %s; OAL types it %s'
                  % (exp[0], key[0], key[1], key[2], tname, exp[1]))
-    if len(vals) != len(ty.values):
-        fail('value-count', '%d V_VAL instances for %d expressions of the source' % (len(vals), len(ty.values)))
+    if sorted((v.LineNumber, v.StartPosition, v.EndPosition) for v in vals) != sorted(ty.value_keys):
+        fail('value-count', '%d V_VAL instances for %d expressions of the source, or at other positions'
+             % (len(vals), len(ty.value_keys)))
     # positions of statements
     got = sorted((s.LineNumber, s.StartPosition, getattr(s, 'EndPosition', None)) for s in smts)
     want = sorted(ty.stmts)
@@ -670,13 +728,14 @@ def run_impl(case):
     evt_obs = []
     val_by_pos = {}
     for v in vals:
-        val_by_pos[(v.LineNumber, v.StartPosition, v.EndPosition)] = v
+        val_by_pos.setdefault((v.LineNumber, v.StartPosition, v.EndPosition), []).append(v)
     for pi_, poss in enumerate(ty.params):
         pars = []
         for p in poss:
-            v = val_by_pos.get(p)
-            par = one(v).V_PAR[800]() if v is not None else None
-            pars.append(par)
+            # (several values may share a position key when an expression spans lines: the parameter's is the one with a V_PAR)
+            cands = [one(v).V_PAR[800]() for v in val_by_pos.get(p, [])]
+            cands = [c for c in cands if c is not None]
+            pars.append(cands[0] if cands else None)
         if any(p is None for p in pars):
             fail('parameter-missing', 'an invocation with %d parameters has parameter values without V_PAR' % len(poss))
             continue
